@@ -248,6 +248,10 @@ func (o *object) construct(argumentList []Value) Value {
 
 // 15.3.5.3.
 func (o *object) hasInstance(of Value) bool {
+	if fn, ok := o.value.(bindFunctionObject); ok {
+		// 15.3.4.5.3: a bound function delegates to its target.
+		return fn.target.hasInstance(of)
+	}
 	if !o.isCall() {
 		// We should not have a hasInstance method
 		panic(o.runtime.panicTypeError("Object.hasInstance not callable"))
